@@ -104,8 +104,10 @@ Definition route_is_ours (p : policy) (name : string) (proto : N) : bool :=
 (* c_fixA / c_fixB select between the code as pinned (false) and the code with fixes/C17-*.patch applied (true);
    the driver probes the tree it was built from and sets them, so the model follows the tree:
      fixA: a failed per-interface route listing keeps the interface queued for rescan (resyncIface returns the error);
-     fixB: the per-interface resync forgets a tracked route only if the tracker believed it to be on that interface. *)
-Record config := { c_pol : policy; c_table : N; c_defproto : N; c_src : N; c_grace : N; c_fixA : bool; c_fixB : bool }.
+     fixB: the per-interface resync forgets a tracked route only if the tracker believed it to be on that interface;
+     fixC: OnIfaceStateChanged, when an interface shows up under a new ifindex without its deletion having been reported,
+           also forgets the state recorded for the old ifindex (fixes/C17-renumber-forgets-old-ifindex-state.patch). *)
+Record config := { c_pol : policy; c_table : N; c_defproto : N; c_src : N; c_grace : N; c_fixA : bool; c_fixB : bool; c_fixC : bool }.
 
 (* ---------- the world outside Felix: links, kernel routes, clock ---------- *)
 Record link := { l_idx : N; l_up : bool; l_running : bool }.
@@ -258,7 +260,12 @@ Definition on_iface (cfg : config) (now : N) (name : string) (idx : N) (state : 
         upd_rescan s' (sdel String.eqb name (s_rescan s'))
     | _ =>
         let s' := on_iface_seen now idx s in
-        let ist := set N.eqb (s_istate s') idx state in
+        let ist0 := match lookup String.eqb (s_n2i s') name with
+                    | Some old => if N.eqb old idx then s_istate s'
+                                  else if c_fixC cfg then remove N.eqb (s_istate s') old else s_istate s'
+                    | None => s_istate s'
+                    end in
+        let ist := set N.eqb ist0 idx state in
         let i2n := match lookup String.eqb (s_n2i s') name with
                    | Some old => if N.eqb old idx then s_i2n s' else remove N.eqb (s_i2n s') old
                    | None => s_i2n s'
